@@ -1675,6 +1675,13 @@ fn do_traverse(c: &mut Ctx, s: u64, dir: Direction, md: usize, etype: Option<u8>
 }
 
 fn do_varpaths(c: &mut Ctx, s: u64, t: u64, cfg: &VCfg, f: &Filt) {
+    do_varpaths_capped(c, s, t, cfg, f, None)
+}
+
+/// `cap = Some(k)` (k >= 1): `max_paths = k`; the answer must be the first k matches of the full
+/// enumeration (compared with the model), each within bounds and in the reference set, and the flag
+/// `truncated` may only be raised when k matches were returned.
+fn do_varpaths_capped(c: &mut Ctx, s: u64, t: u64, cfg: &VCfg, f: &Filt, cap: Option<usize>) {
     let g = c.g;
     let tag = c.tag.clone();
     let line = format!(
@@ -1689,7 +1696,11 @@ fn do_varpaths(c: &mut Ctx, s: u64, t: u64, cfg: &VCfg, f: &Filt) {
         Filt::conds(&f.node),
         Filt::conds(&f.edge)
     );
-    let mut vc = VariableLengthConfig::with_hops(cfg.min, cfg.max).direction(cfg.dir).allow_cycles(cfg.cycles).max_paths(1_000_000);
+    let line = match cap {
+        Some(k) => format!("vpathsk{} {k}", &line["vpaths".len()..]),
+        None => line,
+    };
+    let mut vc = VariableLengthConfig::with_hops(cfg.min, cfg.max).direction(cfg.dir).allow_cycles(cfg.cycles).max_paths(cap.unwrap_or(1_000_000));
     if let Some(ts) = &cfg.etypes {
         if !ts.is_empty() {
             let names: Vec<String> = ts.iter().map(|t| format!("t{t}")).collect();
@@ -1704,6 +1715,37 @@ fn do_varpaths(c: &mut Ctx, s: u64, t: u64, cfg: &VCfg, f: &Filt) {
     let site = "graph_engine.find_variable_paths";
     match res {
         Ok(vp) => {
+            if let Some(k) = cap {
+                let imp = format!(
+                    "ok {} {}",
+                    vp.paths.len(),
+                    vp.paths.iter().map(|p| format!("{}/{}", dots(&p.nodes), dots(&p.edges))).collect::<Vec<_>>().join(";")
+                );
+                let imp = imp.trim_end().to_string();
+                let model = c.m.ask(&line);
+                let key = format!("{}|{}", tag, line);
+                c.rep.case("find_variable_paths.capped", if !vp.paths.is_empty() { Some(&key) } else { None });
+                c.rep.compare("find_variable_paths.capped", || qjson(g, &tag, &line), &imp, &model);
+                c.rep.hit(if vp.stats.truncated { "vpaths.capped.truncated" } else { "vpaths.capped.complete" });
+                if vp.paths.len() > k {
+                    viol(c.rep, &format!("{site}/more_than_max_paths"), &format!("{} paths for max_paths {k}", vp.paths.len()), qjson(g, &tag, &line));
+                }
+                if vp.stats.truncated && vp.paths.len() < k {
+                    viol(c.rep, &format!("{site}/truncated_below_max_paths"), &format!("truncated with {} paths for max_paths {k}", vp.paths.len()), qjson(g, &tag, &line));
+                }
+                let want = ref_varpaths(c.g, s, t, cfg, f);
+                for p in &vp.paths {
+                    if !want.contains(&(p.nodes.clone(), p.edges.clone())) {
+                        viol(c.rep, &format!("{site}/extra_path"), &format!("listed path n={} e={} is not a qualifying chain within the bounds", ids(&p.nodes), ids(&p.edges)), qjson(g, &tag, &line));
+                        return;
+                    }
+                }
+                let distinct: BTreeSet<(Vec<u64>, Vec<u64>)> = vp.paths.iter().map(|p| (p.nodes.clone(), p.edges.clone())).collect();
+                if !vp.stats.truncated && distinct != want {
+                    viol(c.rep, &format!("{site}/missing_path"), &format!("not truncated but {} of {} matches listed", distinct.len(), want.len()), qjson(g, &tag, &line));
+                }
+                return;
+            }
             if vp.stats.truncated {
                 c.rep.hit("vpaths.truncated");
                 return;
@@ -1961,6 +2003,17 @@ fn do_algorithms(c: &mut Ctx, etype: Option<u8>) {
     match c.eng.articulation_points(&bcfg) {
         Ok(mut got) => {
             got.sort_unstable();
+            {
+                let line = format!("artic {et_arg}");
+                let model = c.m.ask(&line);
+                c.rep.compare(&format!("algo.articulation{sfx}"), || json!({"graph": full.to_json(), "query": line}), &format!("ok {}", ids(&got)), &model);
+                let mut d = got.clone();
+                d.dedup();
+                if d.len() != got.len() {
+                    viol(c.rep, "graph_engine.articulation_points/duplicate", &format!("{got:?}"), gj());
+                }
+                c.rep.hit(if got.is_empty() { "artic.none" } else { "artic.some" });
+            }
             let want = ref_articulation(g);
             if got != want {
                 viol(c.rep, "graph_engine.articulation_points/wrong_set", &format!("got {got:?} want {want:?}"), gj());
@@ -1974,6 +2027,12 @@ fn do_algorithms(c: &mut Ctx, etype: Option<u8>) {
         Ok(bs) => {
             let mut got: Vec<(u64, u64)> = bs.into_iter().map(|(a, b)| (a.min(b), a.max(b))).collect();
             got.sort_unstable();
+            {
+                let line = format!("bridges {et_arg}");
+                let model = c.m.ask(&line);
+                let imp = if got.is_empty() { "ok -".to_string() } else { format!("ok {}", got.iter().map(|(a, b)| format!("{a}.{b}")).collect::<Vec<_>>().join(";")) };
+                c.rep.compare(&format!("algo.bridges{sfx}"), || json!({"graph": full.to_json(), "query": line}), &imp, &model);
+            }
             let want = ref_bridges(g, false);
             c.rep.hit(if want.is_empty() { "bridges.none" } else { "bridges.some" });
             if got != want {
@@ -2159,6 +2218,10 @@ fn run_graph(plan: &Planned, m: &mut Model, rep: &mut Report, r: &mut Rng, budge
         };
         let f = if r.chance(1, 3) { gen_filter(r) } else { Filt::default() };
         do_varpaths(&mut c, s, t, &cfg, &f);
+        if r.chance(1, 3) {
+            let k = 1 + r.below(3) as usize;
+            do_varpaths_capped(&mut c, s, t, &cfg, &f, Some(k));
+        }
     }
     // ---- algorithm family: whole graph, then restricted to one edge type
     let t_al = std::time::Instant::now();
@@ -2268,7 +2331,8 @@ fn main() {
         "allwpaths.zero_weight_graph", "mst.forest", "mst.tree", "components.1", "components.2", "kcore.degeneracy.0",
         "kcore.degeneracy.2", "triangles.zero", "nbrs.some", "nbrs.empty", "nbrs.filtered", "nbrs.nonode", "edges_of.ok",
         "edges_of.nonode", "query.deleted_node", "weights.non_numeric_property",
-        "astar.cfg.typed", "astar.cfg.typed_unweighted", "astar.cfg.unweighted", "scc.nontrivial", "scc.singletons",
+        "astar.cfg.typed", "astar.cfg.typed_unweighted", "astar.cfg.unweighted", "scc.nontrivial", "scc.singletons", "artic.some", "artic.none", "bridges.some", "bridges.none",
+        "vpaths.capped.truncated", "vpaths.capped.complete",
     ]
     .iter()
     .map(|s| s.to_string())
